@@ -137,7 +137,17 @@ def _run_suite(spec, suite, tier, rng, ctx, budget_scale=1):
         cases += core.load_corpus(suite.corpus_prefix)
     ncorpus = len(cases)
     cases += suite.gen_cases(rng, "thorough" if budget_scale != 1 else tier)
-    eval_batch(cases, ncorpus, "")
+    if budget_scale != 1:
+        # search mode (an obligation or the correspondence broke): the thorough case set in batches, until an oracle fails,
+        # the implementation crashes or the search budget is used up
+        budget = float(os.environ.get("VERIF_SEARCH_BUDGET_S", "150"))
+        step = max(2000, len(cases) // 40)
+        for i in range(0, len(cases), step):
+            eval_batch(cases[i:i + step], ncorpus if i == 0 else 0, "search %d: " % (i // step + 1))
+            if res["oracle_fail"] or res["crashes"] or time.time() - t_suite > budget:
+                break
+    else:
+        eval_batch(cases, ncorpus, "")
     if budget_scale == 1:
         # the anchored headers differ from the validated tree: same generators, more PRNG streams, until something concrete
         # is found or the time budget of this suite is used up
